@@ -5,6 +5,7 @@ package main
 // the verified content is compared with the request.
 
 import (
+	"context"
 	_ "time/tzdata" // tz-database zones without depending on the host
 
 	"crypto"
@@ -50,8 +51,11 @@ type signSpec struct {
 	chainMut     string // "", "bad-leaf-ku", "missing-root", "reversed", "other-identity"
 	label        string
 	tags         []string
-	ts           *tsSpec // timestamping (C15); nil = nothing configured
-	longValid    bool    // signer certificates valid 1951..2090 (signing times far from today)
+	// how the request handed to Sign was obtained from the one built here: "" (as built), "with-context" (a copy made by
+	// SignRequest.WithContext — the only way to give signing a deadline), "with-context-twice"; "auto" = every third case
+	derive    string
+	ts        *tsSpec // timestamping (C15); nil = nothing configured
+	longValid bool    // signer certificates valid 1951..2090 (signing times far from today)
 }
 
 type stubLocal struct {
@@ -167,6 +171,8 @@ func jwsObjectPayload(p string) bool {
 	var extra any
 	return d.Decode(&extra) != nil && !d.More() && strings.TrimSpace(p[d.InputOffset():]) == ""
 }
+
+type deriveKey struct{}
 
 func runSignSpec(r *Runner, s signSpec, idx int) {
 	id := getIdentity(s.keyID, s.chainLen)
@@ -361,12 +367,22 @@ func runSignSpec(r *Runner, s signSpec, idx int) {
 	env := newEnvelope(s.format)
 	var out []byte
 	var err error
+	derive := s.derive
+	if derive == "" && idx%3 == 2 {
+		derive = "with-context"
+	}
 	func() {
 		defer func() {
 			if p := recover(); p != nil {
 				impl["panic"] = fmt.Sprint(p)
 			}
 		}()
+		switch derive {
+		case "with-context":
+			req = req.WithContext(context.WithValue(context.Background(), deriveKey{}, 1))
+		case "with-context-twice":
+			req = req.WithContext(context.WithValue(context.Background(), deriveKey{}, 1)).WithContext(context.Background())
+		}
 		out, err = env.Sign(req)
 	}()
 	if tsc != nil {
@@ -382,7 +398,7 @@ func runSignSpec(r *Runner, s signSpec, idx int) {
 		tsc.observe(impl, s.format, signAlg, okOut, produced)
 	}
 	c := &Case{ID: fmt.Sprintf("%s-%d", s.label, idx), K: "sign", In: in, Impl: impl, Class: s.format + "/" + s.label, Tags: tags,
-		Replay: map[string]any{"format": s.format, "local": s.local, "key": s.keyID, "payload": s.payload, "scheme": string(s.scheme), "label": s.label}}
+		Replay: map[string]any{"format": s.format, "local": s.local, "key": s.keyID, "payload": s.payload, "scheme": string(s.scheme), "label": s.label, "request_derived": derive}}
 	if tsc != nil {
 		rp := c.Replay.(map[string]any)
 		rp["timestamping"] = s.ts.label()
